@@ -222,7 +222,7 @@ def check_formats(w, rec, act, label, st, expected, ids):
 
 # ---------------------------------------------------------------------------
 def families(kind):
-    base = ["stats", "formats", "multi", "filterby", "filterby_attr", "filterby_self", "sum_rule", "isolates_empty"]
+    base = ["stats", "formats", "multi", "filterby", "filterby_attr", "filterby_self", "bunch", "sum_rule", "isolates_empty"]
     if kind != "DH":
         base += ["neighbors", "lookup", "maximal", "duplicates"]
     return base
@@ -423,6 +423,9 @@ def fam_filterby_self(sim, w, rec, act, r):
     else:
         cands = [("attrs", (fkey, 0.3), {}), ("attrs", (fkey,), {}), ("size", (), {}), ("order", (), {})]
     name, args, kw = r.choice(cands)
+    if "clustering" in name or name == "average_neighbor_degree":
+        if len(act.model.edges) > 40:
+            return  # (quadratic and worse in the number of edges: a 10-node simplex has 1012 faces)
     label = f"{side}.{name}({', '.join([repr(a) for a in args] + [f'{k}={v!r}' for k, v in kw.items()])})"
     try:
         if not hasattr(view, name):
@@ -569,7 +572,8 @@ def fam_lookup(sim, w, rec, act, r):
             target = set(m.edges[e])
             if r.random() < 0.3 and target:
                 target = set(list(csort(target))[:-1])
-            got = list(obj.edges.lookup(list(target)))
+            shape = r.choice([list, tuple, set, iter, (lambda c: (x for x in c))])
+            got = list(obj.edges.lookup(shape(list(target))))
             exp = [f for f in m.edges if set(m.edges[f]) == target]
             if got != exp:
                 w.find({"C06"}, "lookup_wrong", dict(rec, op="edges.lookup"), act.kind,
@@ -577,13 +581,51 @@ def fam_lookup(sim, w, rec, act, r):
         if m.nodes:
             n = r.choice(list(m.nodes))
             target = set(m_memberships(m, n))
-            got = list(obj.nodes.lookup(list(target)))
+            got = list(obj.nodes.lookup(shape(list(target)) if m.edges else list(target)))
             exp = [x for x in m.nodes if set(m_memberships(m, x)) == target]
             if got != exp:
                 w.find({"C06"}, "lookup_wrong", dict(rec, op="nodes.lookup"), act.kind,
                        f"nodes.lookup({csort(target)!r}) = {got!r}, expected {exp!r}")
     except Exception as ex:  # noqa
         w.find({"C06"}, "stat_raised", dict(rec, op="lookup"), act.kind, f"{type(ex).__name__}: {ex}")
+
+
+def fam_bunch(sim, w, rec, act, r):
+    """view(bunch): exactly the IDs of the bunch, in view order; statistics restricted to it; the
+    bunch in every container shape (one-shot iterators included)"""
+    m = act.model
+    obj = act.sut
+    side = r.choice(["nodes", "edges"])
+    ids = list(m.nodes) if side == "nodes" else list(m.edges)
+    if not ids:
+        return
+    bunch = [i for i in ids if r.random() < 0.5]
+    r.shuffle(bunch)
+    shape = r.choice([list, tuple, set, iter, (lambda c: (x for x in c))])
+    view = getattr(obj, side)
+    try:
+        try:
+            arg = shape(bunch)
+        except TypeError:
+            arg = list(bunch)
+        sub = view(arg)
+        got = list(sub)
+        exp = [i for i in ids if i in bunch]
+        if got != exp:
+            w.find({"C06"}, "bunch_view_wrong", dict(rec, op="bunch"), act.kind,
+                   f"{side}({bunch!r}) lists {got!r}, expected {exp!r}")
+            return
+        if len(sub) != len(exp):
+            w.find({"C06"}, "bunch_view_wrong", dict(rec, op="bunch"), act.kind, f"len {len(sub)} != {len(exp)}")
+            return
+        name = "degree" if side == "nodes" else ("size" if act.kind != "DH" else "size")
+        full = getattr(view, name).asdict()
+        part = getattr(sub, name).asdict()
+        if list(part.items()) != [(i, full[i]) for i in exp]:
+            w.find({"C06"}, "bunch_stat_wrong", dict(rec, op="bunch"), act.kind,
+                   f"{side}({bunch!r}).{name} = {part!r}, full view gives {full!r}")
+    except Exception as ex:  # noqa
+        w.find({"C06"}, "stat_raised", dict(rec, op="bunch"), act.kind, f"{type(ex).__name__}: {ex}")
 
 
 def fam_maximal(sim, w, rec, act, r):
